@@ -12,7 +12,7 @@ RULE = ("A: TLC grid - all 8 PDU kinds x all 128 header configurations (the dire
 def events(ctx):
     rng = ctx.rng
     for k in KINDS:
-        for _ in range(ctx.q(700, 40000)):
+        for _ in range(ctx.q(2500, 120000)):
             cfg = rnd_cfg(rng)
             p = rnd_params(rng, k, cfg["large"])
             yield record("pdu.fac", {"kind": k, "cfg": cfg, "p": p, "sfx": []})
